@@ -34,7 +34,9 @@ RULE = ("lattice cell = (payload length n, starting offset 0..3 reached by pre-f
         "quick: n in 0..80, 125..131, 255..257, 300 complete, the other lengths with boundary + random splits and 4 "
         "random alignments. Plus generated payloads up to 1 MiB with random chunkings incl. empty chunks, the "
         "create_xor_masker() selection in AUTOBAHN_USE_NVX=0/1 processes, and scripted sends through the real "
-        "protocol classes (all sending APIs, payload sizes around 125/126/128/65535/65536). A case is non-trivial "
+        "protocol classes (all sending APIs incl. direct sendFrame() with pattern lengths 1,2,3,5,7,10 repeated to "
+        "7/35/127/128/129/1000/70000 octets, truncated, explicit keys, chopsize/sync; payload sizes around "
+        "125/126/128/65535/65536). A case is non-trivial "
         "when at least one octet was processed and compared with the reference / at least one frame was parsed; "
         "distinct = lattice cell id, (size, chunking) hash of a generated payload, (role, api, size class) on the wire.")
 ASSUMPTIONS = [
@@ -43,7 +45,9 @@ ASSUMPTIONS = [
     "XorMaskerNvx.process() always copies into a fresh ffi.new() buffer, so buffer alignment is varied by calling lib.nvx_xormask_process directly on ffi.from_buffer(bytearray)+offset and mapping the result exactly like the wrapper (bytes of the processed region, nvx_xormask_pointer)",
     "inputs to process() are bytes objects (what protocol.py passes); other buffer types are not driven",
     "which class create_xor_masker() picks on which side of the threshold is recorded, not asserted; only the octets/pointer it produces are",
-    "wire policy is asserted for DEFAULT options only; explicit mask= argument of sendFrame, maskClientFrames=False, maskServerFrames=True, applyMask=False are recorded at most, never asserted",
+    "wire policy is asserted for DEFAULT options only; maskClientFrames=False, maskServerFrames=True, applyMask=False are never driven",
+    "direct sendFrame(): only its documented behaviour is asserted - one call writes one frame with the given opcode/fin (rsv=0 always, only valid single-frame messages, continuation sequences and control frames <= 125 octets are sent so that the real peer can receive them); with payload_len the frame payload is the first payload_len octets of the endless repetition of `payload` (docstring: 'it will always write that many octets ... wrap within payload, resending parts of that'; payload_len < len(payload) = a prefix, payload_len=0 = empty frame; payload=b'' with payload_len raises and is not driven); chopsize/sync only change how the octets are handed to the transport (the send queue is drained by advancing the clock / running the loop for _QUEUED_WRITE_DELAY at a time)",
+    "sendFrame(mask=<4 octets>): asserted = a client frame carries the mask bit, a frame carrying the mask bit carries exactly the given key (fixed in /repo by daed40a3) and its payload is the XOR with it; recorded only = that a server masks such a frame; these frames are excluded from the key-diversity monitors; the receiving client peer runs with acceptMaskedServerFrames=True so that it can take them",
     "per-frame key: among N >= 8 frames produced by one per-frame API on one connection at least N/2 distinct keys must occur, and the >= 3 masked frames of one fragmented message must not all share one key (false-alarm chance <= 2^-64 per message with 32-bit random keys); PreparedMessage is masked once at preparation time and is excluded from the key-diversity monitor",
     "protocol instances are the framework-agnostic base classes wired like src/autobahn/websocket/test/test_websocket_protocol.py does (factory, fake transport, _connectionMade(), state=OPEN); receive glue (_onMessage*..) mirrors the Twisted adapter",
 ]
@@ -66,6 +70,15 @@ DECIDING = {
     "wire_control_frames": 10,
     "wire_prepared_frames": 4,
     "wire_rx_messages_compared": 20,
+    # direct sendFrame(opcode, payload, fin, rsv, mask, payload_len, chopsize, sync) calls
+    "wire_sendframe_frames": 200,
+    "wire_sendframe_repeated_offphase_masked": 40,   # payload_len > len(payload), len(payload) % 4 != 0, masked on the wire
+    "wire_sendframe_truncated_frames": 6,            # payload_len < len(payload)
+    "wire_sendframe_explicit_keys_compared": 20,     # mask=<4 octets>: header key == given key, payload == XOR with it
+    "wire_sendframe_fragment_frames": 30,            # data opcode FIN=0 + opcode 0 continuation frames
+    "wire_sendframe_queued_frames": 20,              # chopsize / sync: written through the send queue
+    "wire_sendframe_rx_compared": 100,               # delivered by the real peer protocol
+    "sendframe_repetitions": 20,                     # distinct (pattern length -> frame length) pairs
 }
 
 KEYS_FIXED = [b"\x00\x00\x00\x00", b"\xff\xff\xff\xff", b"\x12\x34\x56\x78"]
@@ -761,6 +774,27 @@ def parse_frames(buf):
 WIRE_SIZES = [0, 1, 2, 3, 4, 5, 7, 15, 16, 17, 124, 125, 126, 127, 128, 129, 130, 131, 255, 256, 257, 300, 1000,
               65535, 65536, 65537, 70001]
 
+# direct sendFrame(): pattern lengths (key phase at the start of a repetition = k*len & 3) x frame lengths
+SF_PATLENS = [1, 2, 3, 5, 7, 10]
+SF_TARGETS = [7, 35, 127, 128, 129, 1000, 70000]
+SF_OTHER_PATLENS = [1, 2, 3, 4, 5, 7, 8, 10, 13, 130, 300]
+SF_APIS = ("sendFrame", "sendFrame-fragments", "sendFrame-control")
+
+
+def sf_expand(pattern, payload_len):
+    """sendFrame() docstring: 'When payload_len is given, it will always write that many octets to the stream.
+    It'll wrap within payload, resending parts of that when more octets were requested' = the first payload_len
+    octets of the endless repetition of ``payload`` (a prefix of it when payload_len < len(payload))."""
+    if payload_len is None:
+        return pattern
+    return (pattern * (payload_len // len(pattern) + 1))[:payload_len]
+
+
+def sf_selfcheck():
+    assert sf_expand(b"abc", None) == b"abc" and sf_expand(b"abc", 3) == b"abc" and sf_expand(b"abc", 0) == b""
+    assert sf_expand(b"abc", 7) == b"abcabca" and sf_expand(b"abcde", 2) == b"ab" and sf_expand(b"*", 4) == b"****"
+    assert all(sf_expand(b"0123456789", n) == bytes(b"0123456789"[i % 10] for i in range(n)) for n in range(40))
+
 
 class Wire:
     def __init__(self, R, params):
@@ -772,10 +806,11 @@ class Wire:
         self.params = params
         if params["fwname"] == "tx":
             from twisted.internet.task import Clock
-            txaio.config.loop = Clock()
+            self.clock = Clock()
+            txaio.config.loop = self.clock
         else:
             import asyncio
-            self.loop = asyncio.new_event_loop()     # never run: timers never fire
+            self.loop = asyncio.new_event_loop()     # only run by drain() for some 10 us at a time: no timer of the protocols (seconds) fires
             txaio.config.loop = self.loop
 
         def glue(Base):
@@ -809,6 +844,17 @@ class Wire:
 
                 def _onClose(self, wasClean, code, reason):
                     self.rx.append(("closed", wasClean, code))
+
+                # what the framework adapters provide and a receiver that fails the connection (e.g. garbage after a
+                # wrong unmasking) calls: without them the first mismatch would end the shard with an AttributeError
+                def _closeConnection(self, abort=False):
+                    self.transport.loseConnection()
+
+                def registerProducer(self, producer, streaming):
+                    pass
+
+                def unregisterProducer(self):
+                    pass
             return Rx
         self.classes = {"client": (P.WebSocketClientFactory, glue(P.WebSocketClientProtocol)),
                         "server": (P.WebSocketServerFactory, glue(P.WebSocketServerProtocol))}
@@ -829,6 +875,12 @@ class Wire:
             pass
         p.rx = []
         p._connectionMade()
+        if self.params["fwname"] != "tx":
+            # asyncio: the client's opening handshake request is written from a future callback (loop.call_soon); let it
+            # happen now, else it would be written into the frame stream the first time drain() runs the loop
+            import asyncio
+            for _ in range(3):
+                self.loop.run_until_complete(asyncio.sleep(0))
         if p.openHandshakeTimeoutCall is not None:
             p.openHandshakeTimeoutCall.cancel()
             p.openHandshakeTimeoutCall = None
@@ -854,6 +906,128 @@ class Wire:
                 except Exception:
                     pass
                 setattr(p, nm, None)
+
+    def drain(self, p):
+        """Queued writes (sendFrame/sendData with chopsize or sync): let the send queue's timer run until it is empty."""
+        delay = self.P.WebSocketProtocol._QUEUED_WRITE_DELAY
+        n = 0
+        while len(p.send_queue) > 0 or p.triggered:
+            n += 1
+            if n > 20000:
+                raise RuntimeError("send queue of the protocol does not drain (%d entries left)" % len(p.send_queue))
+            if self.params["fwname"] == "tx":
+                self.clock.advance(delay)
+            else:
+                import asyncio
+                self.loop.run_until_complete(asyncio.sleep(delay))
+        return n
+
+    # ---- direct sendFrame() calls ----------------------------------------------------------------
+    def sf_frame(self, rng, opcode, fin, patlen, plen_mode, text, target=None, mask_mode=None, queued_ok=True):
+        """One sendFrame() call: dict with the arguments to pass and the documented frame payload (``app``)."""
+        if text:
+            pattern = bytes(rng.choice(b"abcdefghijklmnopqrstuvwxyz 0123456789") for _ in range(patlen))
+        else:
+            pattern = rng.randbytes(patlen)
+        if plen_mode in ("absent", "none"):
+            plen = None
+        elif plen_mode == "equal":
+            plen = patlen
+        elif plen_mode == "repeat":
+            plen = target
+        elif plen_mode == "multiple":
+            plen = patlen * target
+        elif plen_mode == "shorter":
+            plen = rng.choice([1, patlen - 1, patlen // 2, rng.randint(0, patlen - 1)]) if patlen > 1 else 0
+        elif plen_mode == "zero":
+            plen = 0
+        else:
+            raise ValueError(plen_mode)
+        if mask_mode is None:
+            mask_mode = rng.choice(["absent", "absent", "none", "explicit", "explicit"])
+        key = None
+        if mask_mode == "explicit":
+            key = rng.choice([rng.randbytes(4), rng.randbytes(4), rng.randbytes(4), b"\x00\x00\x00\x00",
+                              b"\xff\xff\xff\xff", b"\x00\x00\x00\x01"])
+        app = sf_expand(pattern, plen)
+        wire_len = len(app) + 14
+        q = rng.random() if queued_ok else 1.0
+        chopsize, sync, chop_mode = None, None, "direct"
+        if q < 0.25:
+            chopsize = max(rng.choice([1, 2, 3, 5, 7, 13, 125, 126, 1000, 65536, 100000]), wire_len // 250 + 1)
+            chop_mode = "chopsize"
+            if rng.random() < 0.3:
+                sync, chop_mode = True, "chopsize+sync"
+        elif q < 0.4:
+            sync, chop_mode = True, "sync"
+        elif q < 0.5:
+            chopsize, sync, chop_mode = rng.choice([0, None]), False, "explicit-unqueued"
+        return {"opcode": opcode, "fin": fin, "pattern": pattern, "plen_mode": plen_mode, "payload_len": plen,
+                "mask_mode": mask_mode, "key": key, "chopsize": chopsize, "sync": sync, "chop_mode": chop_mode,
+                "style": rng.choice(["kw", "kw", "pos"]), "app": app}
+
+    def sf_ops(self, rng, tier):
+        ops = []
+        combos = [(a, b) for a in SF_PATLENS for b in SF_TARGETS]
+        rng.shuffle(combos)
+        if tier == "quick":
+            combos = combos[:14]
+        # complete single-frame messages: every chosen (pattern length, frame length) pair as repeated payload ...
+        for patlen, target in combos:
+            binary = rng.random() < 0.7
+            ops.append(("sendFrame", binary, [self.sf_frame(rng, 2 if binary else 1, True, patlen, "repeat", not binary,
+                                                            target)], None))
+        # ... and the other payload_len classes
+        for mode in ("absent", "none", "equal", "multiple", "shorter", "shorter", "zero", "absent"):
+            binary = rng.random() < 0.7
+            patlen = rng.choice(SF_OTHER_PATLENS)
+            ops.append(("sendFrame", binary, [self.sf_frame(rng, 2 if binary else 1, True, patlen, mode, not binary,
+                                                            rng.choice([2, 3, 4, 9, 32]))], None))
+        # fragments of one message: data opcode + continuation frames, the last one with FIN
+        modes = ["repeat", "repeat", "repeat", "absent", "none", "equal", "multiple", "shorter", "zero"]
+        for m in range(3 if tier == "quick" else 6):
+            binary = rng.random() < 0.7
+            nfr = rng.randint(3, 5)
+            frames = []
+            for i in range(nfr):
+                mode = rng.choice(modes)
+                if mode == "repeat":
+                    patlen = rng.choice(SF_PATLENS)
+                    target = rng.choice(SF_TARGETS[:6] if rng.random() < 0.9 else SF_TARGETS)
+                else:
+                    patlen = rng.choice(SF_OTHER_PATLENS)
+                    target = rng.choice([2, 3, 5])
+                frames.append(self.sf_frame(rng, (2 if binary else 1) if i == 0 else 0, i == nfr - 1, patlen, mode,
+                                            not binary, target,
+                                            mask_mode=rng.choice(["absent", "none"]) if m == 0 else None))
+            ops.append(("sendFrame-fragments", binary, frames, None))
+        # control frames (payload <= 125 octets)
+        for _ in range(4 if tier == "quick" else 8):
+            opcode = rng.choice([9, 10])
+            mode = rng.choice(["repeat", "repeat", "absent", "shorter", "equal"])
+            patlen = rng.choice(SF_PATLENS)
+            ops.append(("sendFrame-control", None, [self.sf_frame(rng, opcode, True, patlen, mode, False,
+                                                                  rng.choice([7, 35, 124, 125]))], None))
+        return ops
+
+    def sf_call(self, p, fr):
+        """Call sendFrame() passing only the arguments the case specifies (absent = the documented default)."""
+        if fr["style"] == "pos":
+            p.sendFrame(fr["opcode"], fr["pattern"], fr["fin"], 0, fr["key"], fr["payload_len"], fr["chopsize"],
+                        bool(fr["sync"]))
+            return
+        kw = {"opcode": fr["opcode"], "payload": fr["pattern"]}
+        if not fr["fin"] or fr["chop_mode"] == "explicit-unqueued":
+            kw["fin"] = fr["fin"]
+        if fr["plen_mode"] != "absent":
+            kw["payload_len"] = fr["payload_len"]
+        if fr["mask_mode"] != "absent":
+            kw["mask"] = fr["key"]
+        if fr["chopsize"] is not None:
+            kw["chopsize"] = fr["chopsize"]
+        if fr["sync"] is not None:
+            kw["sync"] = fr["sync"]
+        p.sendFrame(**kw)
 
     # ---- script ------------------------------------------------------------------------------
     def script(self, rng, tier):
@@ -893,6 +1067,7 @@ class Wire:
         for _ in range(5):
             ops.append(("sendPing", None, pay(rng.choice([0, 1, 4, 5, 125])), None))
             ops.append(("sendPong", None, pay(rng.choice([0, 1, 4, 5, 125])), None))
+        ops.extend(self.sf_ops(rng, tier))
         rng.shuffle(ops)
         reason = "".join(rng.choice("abcxyz ") for _ in range(rng.randint(0, 30)))
         ops.append(("sendClose", None, (rng.choice([1000, 3000, 4999]), reason), None))
@@ -901,6 +1076,13 @@ class Wire:
     def execute(self, f, p, op):
         """Run one op on protocol p; return list of expected logical items [(kind, binary, payload)]."""
         api, binary, data, extra = op
+        if api in SF_APIS:
+            for fr in data:
+                self.sf_call(p, fr)
+            app = b"".join(fr["app"] for fr in data)
+            if api == "sendFrame-control":
+                return [("ping" if data[0]["opcode"] == 9 else "pong", None, app)]
+            return [("msg", binary, app)]
         if api == "sendMessage":
             p.sendMessage(data, binary)
             return [("msg", binary, data)]
@@ -941,12 +1123,53 @@ class Wire:
             return [("close", None, code.to_bytes(2, "big") + reason.encode("utf8"))]
         raise ValueError(api)
 
+    @staticmethod
+    def sf_describe(calls):
+        return [{"opcode": c["opcode"], "fin": c["fin"], "len(payload)": len(c["pattern"]), "payload_len": c["payload_len"],
+                 "payload_len_class": c["plen_mode"], "mask": c["key"].hex() if c["key"] else c["mask_mode"],
+                 "chopsize": c["chopsize"], "sync": c["sync"], "call": c["style"]} for c in calls][:8]
+
+    def sf_frame_monitor(self, role, api, fr, call, replay):
+        """Counters per direct sendFrame() frame: which argument classes reached the XOR comparison."""
+        R = self.R
+        R.count("wire_sendframe_frames")
+        plen, patlen = call["payload_len"], len(call["pattern"])
+        R.seen("sendframe_classes", "%s/%s/%s/%s/%s" % (role, api, call["plen_mode"], call["mask_mode"], call["chop_mode"]))
+        if plen is not None:
+            R.count("wire_sendframe_payload_len_frames")
+            if plen > patlen:
+                R.count("wire_sendframe_repeated_frames")
+                R.seen("sendframe_repetitions", "%d->%d" % (patlen, plen))
+                if fr["masked"] and patlen % 4 != 0:
+                    # the key phase at the start of the 2nd, 3rd.. repetition is not 0: deciding for "XOR with the
+                    # key repeated from the running offset over the WHOLE frame payload"
+                    R.count("wire_sendframe_repeated_offphase_masked")
+            elif plen < patlen:
+                R.count("wire_sendframe_truncated_frames")
+        if call["opcode"] == 0 or not call["fin"]:
+            R.count("wire_sendframe_fragment_frames")
+        if call["chop_mode"] in ("chopsize", "chopsize+sync", "sync"):
+            R.count("wire_sendframe_queued_frames")
+        if (fr["opcode"], fr["fin"], fr["rsv"]) != (call["opcode"], bool(call["fin"]), 0):
+            R.violation("C15/wire/sendFrame-header/%s" % api,
+                        "%s sendFrame(opcode=%d, fin=%s, rsv=0) wrote opcode=%d fin=%s rsv=%d" % (
+                            role, call["opcode"], call["fin"], fr["opcode"], fr["fin"], fr["rsv"]),
+                        {"api": api, "calls": self.sf_describe([call])}, replay)
+
+    def make_peer(self, peer_role):
+        pf, peer = self.make(peer_role)
+        if peer_role == "client":
+            # documented client option; needed so that the receiving client takes the frames a server masks because
+            # sendFrame(mask=<key>) was called (under default options a server frame with mask bit is flagged below anyway)
+            peer.acceptMaskedServerFrames = True
+        return pf, peer
+
     def run_connection(self, role, cseed, tier):
         R = self.R
         rng = random.Random(cseed)
         f, p = self.make(role)
         peer_role = "server" if role == "client" else "client"
-        pf, peer = self.make(peer_role)
+        pf, peer = self.make_peer(peer_role)
         keysets = {}     # api family -> list of keys (per connection)
         replay = {"kind": "wire", "role": role, "cseed": cseed, "tier": tier}
         ops = self.script(rng, tier)
@@ -954,8 +1177,10 @@ class Wire:
             api = op[0]
             R.count("evaluations")
             expected = self.execute(f, p, op)
+            queued = self.drain(p)
             octets = p.transport.take()
             frames, err = parse_frames(octets)
+            calls = op[2] if api in SF_APIS else None      # direct sendFrame(): one call = one frame
             R.count("wire_ops")
             size = len(expected[0][2])
             R.seen("nontrivial", "%s/%s/%s/%d" % (self.params["fwname"], role, api, size.bit_length()))
@@ -965,12 +1190,47 @@ class Wire:
                             "octets written by %s %s are not a sequence of complete RFC 6455 frames: %s" % (role, api, err),
                             {"octets_head": octets[:64].hex(), "len": len(octets)}, replay)
                 continue
+            if calls is not None:
+                R.count("wire_sendframe_ops")
+                if queued:
+                    R.count("wire_sendframe_queued_ops")
+                if len(frames) != len(calls):
+                    R.violation("C15/wire/sendFrame-frame-count/%s" % api,
+                                "%d sendFrame() calls of the %s wrote %d frames" % (len(calls), role, len(frames)),
+                                {"api": api, "calls": self.sf_describe(calls),
+                                 "frames": [(fr["opcode"], fr["fin"], fr["masked"], len(fr["raw"])) for fr in frames][:12]},
+                                replay)
+                    continue
             # ---- mask policy + payload == XOR(app bytes, key) --------------------------------------
             plain = []
             msg_keys = []
             msg_fam_keys = {}
-            for fr in frames:
-                if role == "client":
+            for fi, fr in enumerate(frames):
+                call = calls[fi] if calls is not None else None
+                explicit = call["key"] if call is not None else None
+                if call is not None:
+                    self.sf_frame_monitor(role, api, fr, call, replay)
+                if explicit is not None:
+                    # sendFrame(mask=<4 octets>): the caller chose the key.  Asserted: a client frame is masked; in both
+                    # roles a frame that carries the mask bit carries THAT key; payload == XOR(app, header key) (below).
+                    # Recorded only: that a server masks the frame at all.
+                    R.count("wire_client_frames" if role == "client" else "wire_server_frames")
+                    R.seen("explicit_mask_on_wire", "%s/%s" % (role, "masked" if fr["masked"] else "unmasked"))
+                    if role == "client" and not fr["masked"]:
+                        R.violation("C15/wire/client-frame-unmasked/%s" % api,
+                                    "client sendFrame(mask=%s) wrote a frame without mask bit under default options" % (
+                                        explicit.hex()), {"api": api, "frame_head": octets[:16].hex()}, replay)
+                    if fr["masked"]:
+                        R.count("wire_sendframe_explicit_keys_compared")
+                        if fr["key"] != explicit:
+                            R.violation("C15/wire/explicit-key-not-in-header/%s" % api,
+                                        "%s sendFrame(mask=%s) wrote masking key %s into the frame header" % (
+                                            role, explicit.hex(), fr["key"].hex()),
+                                        {"api": api, "calls": self.sf_describe(calls)}, replay)
+                        plain.append(ref_xor(fr["raw"], fr["key"], 0))
+                    else:
+                        plain.append(fr["raw"])
+                elif role == "client":
                     R.count("wire_client_frames")
                     if not fr["masked"]:
                         R.violation("C15/wire/client-frame-unmasked/%s" % api,
@@ -982,6 +1242,7 @@ class Wire:
                         plain.append(ref_xor(fr["raw"], fr["key"], 0))
                         msg_keys.append(fr["key"])
                         fam = "sendPreparedMessage" if api == "sendPreparedMessage" else (
+                            "sendFrame-direct" if call is not None else
                             "beginMessageFrame-path" if (api in ("sendMessageFrame", "beginMessageFrame") and not (
                                 fr["fin"] and fr["opcode"] == 0 and len(fr["raw"]) == 0)) else "sendFrame-path")
                         keysets.setdefault(fam, []).append(fr["key"])
@@ -1003,12 +1264,17 @@ class Wire:
             got = b"".join(plain)
             R.count("wire_payloads_compared")
             if got != app:
-                key = ("C15/wire/payload-not-xor/%s" if role == "client" else "C15/wire/server-payload-altered/%s") % api
+                anymask = any(fr["masked"] for fr in frames)
+                key = ("C15/wire/payload-not-xor/%s" if (role == "client" or anymask) else
+                       "C15/wire/server-payload-altered/%s") % api
                 i = next((j for j in range(min(len(got), len(app))) if got[j] != app[j]), min(len(got), len(app)))
                 R.violation(key, "%s %s: payload on the wire%s differs from the application bytes at octet %d (%d vs %d octets)" % (
                     role, api, " (unmasked with the key in the frame header)" if role == "client" else "", i, len(got), len(app)),
                     {"api": api, "frames": [(fr["opcode"], fr["fin"], fr["masked"], fr["key"].hex() if fr["key"] else None,
                                              len(fr["raw"])) for fr in frames][:12],
+                     "sendFrame_calls": self.sf_describe(calls) if calls is not None else None,
+                     "first_wrong_frame": next((k for k, fr in enumerate(calls) if plain[k] != fr["app"]), None)
+                     if calls is not None else None,
                      "got": got[max(0, i - 4):i + 12].hex(), "want": app[max(0, i - 4):i + 12].hex()}, replay)
             # >= 3 masked frames of ONE message sharing one key: chance 2^-64 with per-frame random keys
             for fam, mk in msg_fam_keys.items():
@@ -1035,6 +1301,8 @@ class Wire:
                 new = peer.rx[before:]
                 peer.transport.take()       # e.g. the automatic pong
                 R.count("wire_rx_messages_compared")
+                if calls is not None:
+                    R.count("wire_sendframe_rx_compared")
                 want = (kind, binary, app) if kind == "msg" else (kind, app)
                 if new != [want]:
                     R.violation("C15/wire/unmask-mismatch/%s-receiving/%s" % (peer_role, api),
@@ -1043,6 +1311,10 @@ class Wire:
                                 {"delivered": [(x[0], (x[-1][:24].hex() if isinstance(x[-1], bytes) else x[-1])) for x in new][:4],
                                  "want": (kind, app[:24].hex()), "peer_state": peer.state,
                                  "wasNotCleanReason": getattr(peer, "wasNotCleanReason", None)}, replay)
+                if peer.state != peer.STATE_OPEN:
+                    # the receiver failed the connection (reported above): go on with a fresh one
+                    self.cleanup(peer)
+                    pf, peer = self.make_peer(peer_role)
         # ---- per-frame key: >= 8 frames of a per-frame API on this connection, >= 2 distinct keys
         if role == "client":
             for fam, ks in keysets.items():
@@ -1081,6 +1353,7 @@ def run_wire(params, R):
 # ------------------------------------------------------------------------------------------------
 def run_shard(params, R):
     ref_selfcheck()
+    sf_selfcheck()
     build_nvx.assert_fresh()
     mode = params["mode"]
     if mode == "masker":
@@ -1136,7 +1409,9 @@ MANIFEST_ENTRY = {
              "XOR reference and with the other implementations over the lattice lengths 0..300 x start offsets 0..3 x every split "
              "x 4 keys (complete in the thorough tier, sub-lattice in quick), plus generated payloads up to 1 MiB under random "
              "chunkings, involution and reset() checks; the real WebSocket client/server protocol classes send through every "
-             "sending API into a fake transport and an own RFC 6455 parser checks mask bit per role, payload == XOR(app bytes, "
+             "sending API (incl. direct sendFrame() with repeated/truncated payload_len, explicit mask keys, chopsize/sync, as "
+             "single frames, continuation sequences and control frames) into a fake transport and an own RFC 6455 parser checks "
+             "mask bit per role, payload == XOR(app bytes, "
              "header key), key diversity, and the real peer protocol must deliver the sent bytes. Held = no mismatch on the "
              "executions listed in the evidence; not a proof."),
     "note": "trusts the three-line reference (anchored on the RFC 6455 5.7 example), cffi, the clang sanitizer runtime; only default masking options are asserted; buffer types other than bytes are not driven",
